@@ -28,8 +28,8 @@ import (
 	"go.uber.org/zap/zapcore"
 	"pgregory.net/rapid"
 
-	"github.com/obolnetwork/charon/app/log"
 	"github.com/obolnetwork/charon/app/k1util"
+	"github.com/obolnetwork/charon/app/log"
 	"github.com/obolnetwork/charon/cluster"
 	"github.com/obolnetwork/charon/dkg"
 	"github.com/obolnetwork/charon/dkg/share"
@@ -76,7 +76,10 @@ func fullRun(t *testing.T, rt *rapid.T, ctx context.Context, relayAddr string, m
 	version := rapid.SampledFrom([]string{"", "v1.10.0", "v1.9.0", "v1.8.0", "v1.7.0", "v1.6.0"}).Draw(rt, "version")
 	amountsKind := rapid.IntRange(0, 2).Draw(rt, "amounts")
 	compounding := rapid.Bool().Draw(rt, "compounding")
-	seed := rapid.IntRange(1, 1<<30).Draw(rt, "seed")
+	// the repository's deterministic key generator (testutil.GenerateInsecureK1Key, used by cluster.NewForT for the
+	// operators' keys seed..seed+n-1) feeds a constant byte (seed+1 mod 256) to the key generation, which never
+	// terminates for the bytes 0x00 and 0xff: seeds are drawn where no operator key meets them
+	seed := rapid.IntRange(1, 200).Draw(rt, "seed")
 	stagger := make([]int, n)
 	for i := range stagger {
 		stagger[i] = rapid.IntRange(0, 300).Draw(rt, "stagger_ms")
